@@ -45,7 +45,7 @@ PLAN = {
              "recently removed key, or a conflict, or an aborted/failed/panicked transaction; distinct by the operation list",
         assumptions=["map model + conflict rule as stated in the property", "'_' in host labels not judged"],
         quick=[REPLAY,
-               R("model", "^(TestModel|TestNote)$", checks=7000, steps=40, timeout=900),
+               R("model", "^(TestModel|TestNote)$", checks=2500, steps=40, shards=3, timeout=900),
                R("fanout", "^TestFanOut$", checks=150, timeout=900),
                R("exhaustive-histories", "^TestExhaustiveHistories$", env={"C02_EXH_LEN": 3}, timeout=900)],
         thorough=[REPLAY,
